@@ -381,6 +381,87 @@ class Scheduler:
         other.go.set()
 
 
+# ---------------------------------------------------------------------------
+# lock seam: a lock created by sqllineage code is a scheduling point owned by the simulator
+
+
+LOCK_STATS = {"created": 0, "acquired": 0, "contended": 0}
+
+
+class SimLock:
+    """Stands in for ``threading.Lock`` / ``RLock`` objects that *sqllineage* code creates.  Simulated threads
+    run one at a time, so ownership is tracked logically; a simulated thread that finds the lock taken is parked
+    with ``block_until`` (a scheduling decision) instead of blocking the real thread that holds the baton, which
+    would stall the whole simulation.  Outside a simulation it is an ordinary lock."""
+
+    def __init__(self, reentrant: bool = False):
+        import _thread
+
+        self._real = _thread.RLock() if reentrant else _thread.allocate_lock()
+        self._reentrant = reentrant
+        self._holder: object = None
+        self._depth = 0
+        LOCK_STATS["created"] += 1
+
+    def acquire(self, blocking: bool = True, timeout: float = -1) -> bool:
+        me = current()
+        if me is None or me.done:
+            return self._real.acquire(blocking, timeout)
+        if self._holder is not None and not (self._reentrant and self._holder is me):
+            if not blocking or timeout == 0:
+                return False
+            LOCK_STATS["contended"] += 1
+            if self._holder is me:
+                me.sched.fatal = HarnessError("a simulated thread acquires a non-reentrant lock it already holds")
+                raise me.sched.fatal
+            me.sched.block_until(lambda: self._holder is None)
+        if not self._real.acquire(False):
+            self._real.acquire()
+        self._holder = me
+        self._depth += 1
+        LOCK_STATS["acquired"] += 1
+        return True
+
+    def release(self) -> None:
+        me = current()
+        if me is not None and self._holder is not None:
+            self._depth -= 1
+            if self._depth <= 0:
+                self._depth = 0
+                self._holder = None
+        self._real.release()
+
+    def locked(self) -> bool:
+        return self._holder is not None or (self._real.locked() if hasattr(self._real, "locked") else False)
+
+    __enter__ = acquire
+
+    def __exit__(self, *a) -> None:
+        self.release()
+
+
+def install_lock_seam(prefix: str = "sqllineage") -> None:
+    """``threading.Lock()`` / ``threading.RLock()`` called from a module whose name starts with ``prefix`` return a
+    ``SimLock``; every other caller gets the real thing.  Must run before the modules are imported (module-level locks)."""
+    if getattr(threading, "_verif_lock_seam", False):
+        return
+    real_lock, real_rlock = threading.Lock, threading.RLock
+
+    def _from_prefix() -> bool:
+        f = sys._getframe(2)
+        return str(f.f_globals.get("__name__", "")).startswith(prefix)
+
+    def Lock(*a, **k):  # noqa: N802
+        return SimLock(False) if _from_prefix() else real_lock(*a, **k)
+
+    def RLock(*a, **k):  # noqa: N802
+        return SimLock(True) if _from_prefix() else real_rlock(*a, **k)
+
+    threading.Lock = Lock  # type: ignore
+    threading.RLock = RLock  # type: ignore
+    threading._verif_lock_seam = True  # type: ignore
+
+
 class no_preempt:
     """Context manager: LINE events inside do not yield (oracle probes)."""
 
